@@ -214,7 +214,7 @@ func runC01(c *fw.Ctx) {
 
 	// ---------- endurance: 70 000 back-propagations in ONE process (counters, generation marks, pooled state) ----------
 	c.Case(func(k *fw.K) {
-		n := 70000
+		n := c.Pick(70000, 200000)
 		k.Case = map[string]any{"family": "endurance", "back_propagations_in_one_process": n, "graph": "y = x*x + sin(x), x tracked [2]"}
 		k.Key("endurance/%d", n)
 		for i := 0; i < n; i++ {
